@@ -240,7 +240,7 @@ LockFree == (\A c \in Child : cs[c] # "insrc") => lock = 0
 
 \* one line per generated transition: the label and the successor's projection
 EmitEdge == EdgeFile = "" \/
-   CSVWrite("%1$s", <<ToJson([f |-> [cs |-> cs, recv |-> recv, p |-> srcPos, busy |-> srcBusy, closed |-> srcClosed, l |-> lock, buf |-> buf, rem |-> rem],
+   CSVWrite("%1$s", <<ToJson([f |-> [cs |-> cs, recv |-> recv, p |-> srcPos, busy |-> srcBusy, closed |-> srcClosed, l |-> lock, buf |-> buf, rem |-> rem, reg |-> reg, nfail |-> nfail],
                               a |-> last',
-                              t |-> [cs |-> cs', recv |-> recv', p |-> srcPos', busy |-> srcBusy', closed |-> srcClosed', l |-> lock', buf |-> buf', rem |-> rem']])>>, EdgeFile)
+                              t |-> [cs |-> cs', recv |-> recv', p |-> srcPos', busy |-> srcBusy', closed |-> srcClosed', l |-> lock', buf |-> buf', rem |-> rem', reg |-> reg', nfail |-> nfail']])>>, EdgeFile)
 =============================================================================
